@@ -13,6 +13,7 @@ import (
 	"verif/lib/ev"
 	"verif/lib/exact"
 	"verif/lib/mc"
+	"verif/lib/refgeom"
 )
 
 const (
@@ -93,6 +94,9 @@ func strictlyIn(b orb.Bound, p orb.Point) bool {
 func checkRing(c *mc.Ctx, box orb.Bound, ring orb.Ring, what string) orb.Ring {
 	got := clip.Ring(box, ring.Clone())
 	desc := func() string { return fmt.Sprintf("%s box=%v ring=%v got=%v", what, box, ring, got) }
+	if g2 := clip.Ring(box, orb.Ring(refgeom.Spare(ring))); !bitsEq(g2, got) {
+		c.Failf("layout-dependent", "the ring with spare capacity behind it clips to %v | %s", g2, desc())
+	}
 	if got != nil && len(got) == 0 {
 		c.Failf("empty-not-nil", "empty result must be nil | %s", desc())
 	}
